@@ -12,6 +12,8 @@ the real-number model gets `N = 0`, `n / 0 = 0` - the same damage.
 -/
 import Proofs.Lemmas.MinerHard
 
+set_option linter.unusedSimpArgs false
+
 namespace PylifeVerif.C11
 open PylifeVerif PylifeVerif.Miner
 
@@ -150,6 +152,51 @@ theorem gassner_damage_one_at_any_level (c : Curve ℝ) (hc : ValidCurve c) (l :
     damageSum (minerHaibach c) (applyFor (gassnerCyclesHaibach c (scaleAmps t l)) (scaleAmps t l)) = 1 :=
   ⟨gassner_elementary_damage_one c hc _ (validColl_scaleAmps hl ht) (loaded_scaleAmps hload ht),
    gassner_haibach_damage_one c hc _ (validColl_scaleAmps hl ht) (loaded_scaleAmps hload ht)⟩
+
+/-! ## curves given for a native failure probability with scatter (`TN`, `TS`, `failure_probability`)
+
+`Fatigue.damage`, `cycles()` and `gassner_cycles` evaluate the curve transformed to 50 % (`Model/Woehler.lean`,
+`transform`; `ppf` = `scipy.stats.norm.ppf`, arbitrary here), `MinerHaibach.lifetime_multiple` (repaired) reads the
+knee of that curve.  Every statement above therefore holds for such curves; the native parameters only have to be
+positive. -/
+
+/-- linearity for native curves: additive, proportional, order independent (no precondition) -/
+theorem damage_linear_native (ppf : ℝ → ℝ) (w : Woehler.Curve ℝ) (a b : Coll ℝ) (t : ℝ) :
+    damageSumW ppf w (a ++ b) = damageSumW ppf w a + damageSumW ppf w b ∧
+    damageSumW ppf w (scaleCounts t a) = t * damageSumW ppf w a ∧
+    (∀ a', a.Perm a' → damageSumW ppf w a = damageSumW ppf w a') :=
+  ⟨damage_additive _ a b, damage_scales_with_counts _ t a, fun _ h => damage_perm_invariant _ h⟩
+
+/-- original ≤ Haibach ≤ elementary for native curves -/
+theorem damage_order_native (ppf : ℝ → ℝ) (w : Woehler.Curve ℝ) (hTS : 0 < w.TS) (hTN : 0 < w.TN)
+    (hSD : 0 < w.SD) (hND : 0 < w.ND) (hk : 1 ≤ w.k1) (l : Coll ℝ) (hl : ValidColl l) :
+    damageSumW ppf (Woehler.minerOriginal w) l ≤ damageSumW ppf (Woehler.minerHaibach w) l ∧
+    damageSumW ppf (Woehler.minerHaibach w) l ≤ damageSumW ppf (Woehler.minerElementary w) l := by
+  unfold damageSumW
+  rw [at50_minerOriginal, at50_minerHaibach, at50_minerElementary]
+  exact damage_order_original_le_haibach_le_elementary _ (validCurve_at50 ppf w hTS hTN hSD hND) hk l hl
+
+/-- Gassner cycles give damage one, both rules, for every native failure probability and scatter -/
+theorem gassner_damage_one_native (ppf : ℝ → ℝ) (w : Woehler.Curve ℝ) (hTS : 0 < w.TS) (hTN : 0 < w.TN)
+    (hSD : 0 < w.SD) (hND : 0 < w.ND) (l : Coll ℝ) (hl : ValidColl l) (hload : Loaded l) :
+    damageSumW ppf (Woehler.minerElementary w) (applyFor (gassnerCyclesElementaryW ppf w l) l) = 1 ∧
+    damageSumW ppf (Woehler.minerHaibach w) (applyFor (gassnerCyclesHaibachW ppf w l) l) = 1 := by
+  have hc := validCurve_at50 ppf w hTS hTN hSD hND
+  unfold damageSumW
+  rw [at50_minerElementary, at50_minerHaibach, gassnerCyclesElementaryW_eq, gassnerCyclesHaibachW_eq]
+  exact ⟨gassner_elementary_damage_one _ hc l hl hload, gassner_haibach_damage_one _ hc l hl hload⟩
+
+/-- `MinerElementary.gassner` on a native curve: the shifted curve, evaluated at 50 % like every curve, reads the
+    Gassner cycles at the largest occupied amplitude (no precondition) -/
+theorem gassner_curve_cycles_native (ppf : ℝ → ℝ) (w : Woehler.Curve ℝ) (l : Coll ℝ) :
+    cycles (at50 ppf (gassnerCurveW w l)) (maxOcc l) = some (gassnerCyclesElementaryW ppf w l) := by
+  rw [at50_gassnerCurveW]
+  unfold cycles gassnerCyclesElementaryW gassnerCycles basquin
+  split_ifs <;> simp only [Option.map_some, Option.some.injEq, at50_k1] <;> ring
+
+example : (0 : ℝ) < (⟨5, Woehler.Life.inf, 200, 1000000, 4, 5 / 4, 1 / 10⟩ : Woehler.Curve ℝ).TS ∧
+    (0 : ℝ) < (⟨5, Woehler.Life.inf, 200, 1000000, 4, 5 / 4, 1 / 10⟩ : Woehler.Curve ℝ).TN := by
+  constructor <;> norm_num
 
 /-! ## effective damage sum -/
 
